@@ -36,9 +36,9 @@ type fcase struct {
 	OtherIndex  bool     `json:"proposal_built_for_another_proposer_index,omitempty"`
 	AuctionSlow bool     `json:"auction_answers_after_2300ms,omitempty"`
 	Gated       bool     `json:"relays_answer_at_the_same_instant,omitempty"`
-	Graffiti    string   `json:"graffiti"`                   // ok | error | absent
+	Graffiti    string   `json:"graffiti"`                   // ok | error | absent | timeout
 	Auction     string   `json:"auction"`                    // none | error | no-winner | winner
-	Relays      []string `json:"relay_unblinding,omitempty"` // block | 400 | transient | error | slow | hang
+	Relays      []string `json:"relay_unblinding,omitempty"` // block | 400 | transient | error | slow | hang | empty
 	Listed      []int    `json:"relays_listed_for_unblinding,omitempty"`
 	SubmitErr   bool     `json:"submit_error,omitempty"`
 	SignErr     bool     `json:"block_signing_error,omitempty"`
@@ -134,6 +134,9 @@ func (w *world) SignBlobSidecar(context.Context, e2wtypes.Account, phase0.Slot, 
 func (w *world) Graffiti(context.Context, phase0.Slot, phase0.ValidatorIndex) ([]byte, error) {
 	if w.fc.Graffiti == "error" {
 		return nil, errors.New("scripted graffiti failure")
+	}
+	if w.fc.Graffiti == "timeout" {
+		return nil, fmt.Errorf("failed to fetch graffiti: %w", context.DeadlineExceeded) // the source's own timeout, not the proposal's
 	}
 	return []byte("verif graffiti"), nil
 }
@@ -263,7 +266,7 @@ func signedRootSig(p *api.VersionedSignedProposal) (phase0.Root, phase0.BLSSigna
 
 func genCase(r *rand.Rand) *fcase {
 	v := harness.Versions[r.Intn(len(harness.Versions))]
-	fc := &fcase{Version: v.String(), Graffiti: []string{"ok", "ok", "error", "absent"}[r.Intn(4)], Auction: []string{"none", "error", "no-winner", "winner", "winner"}[r.Intn(5)],
+	fc := &fcase{Version: v.String(), Graffiti: []string{"ok", "ok", "error", "absent", "timeout"}[r.Intn(5)], Auction: []string{"none", "error", "no-winner", "winner", "winner"}[r.Intn(5)],
 		OtherSlot: r.Intn(8) == 0, SubmitErr: r.Intn(8) == 0, SignErr: r.Intn(10) == 0, UnblindAll: r.Intn(5) == 0, AccountKind: r.Intn(4)}
 	if v >= spec.DataVersionBellatrix {
 		fc.Blinded = r.Intn(2) == 0
@@ -274,7 +277,7 @@ func genCase(r *rand.Rand) *fcase {
 	if fc.Auction == "winner" || fc.Auction == "no-winner" {
 		n := 1 + r.Intn(4)
 		for i := 0; i < n; i++ {
-			fc.Relays = append(fc.Relays, []string{"block", "block", "400", "transient", "error", "slow", "hang"}[r.Intn(7)])
+			fc.Relays = append(fc.Relays, []string{"block", "block", "400", "transient", "error", "slow", "hang", "empty", "slow"}[r.Intn(9)])
 		}
 		if fc.Auction == "winner" {
 			for i := 0; i < n; i++ {
@@ -370,6 +373,8 @@ func runCase(c *harness.Ctx, id string, fc *fcase, uniq int) {
 				return full()
 			case "400":
 				return nil, errors.New("POST failed with status 400: unknown payload")
+			case "empty":
+				return nil, nil // an answer without a block
 			case "transient":
 				if n < 2 {
 					return nil, errors.New("POST failed with status 502: bad gateway")
@@ -501,7 +506,7 @@ func runCase(c *harness.Ctx, id string, fc *fcase, uniq int) {
 	// the proposal was requested, with the duty's slot, reveal and the right graffiti
 	if len(propReqs) != 1 {
 		key := "proposal-not-requested"
-		if fc.Graffiti == "error" {
+		if fc.Graffiti == "error" || fc.Graffiti == "timeout" {
 			key += ":graffiti-failed"
 		} else if fc.Auction == "error" {
 			key += ":auction-failed"
@@ -681,7 +686,7 @@ func main() {
 	harness.Main(&harness.Spec{
 		Property:     "C05",
 		Level:        "exploration",
-		Rule:         "proposal duties over versions phase0..deneb x full/blinded x {proposal for the duty slot, for another slot} x graffiti {ok, error, no provider} x auction {no auctioneer, error, result without winner, winner with a random listed subset} x per-relay unblinding {block, 400, transient error then block, error, slow, hang} x {submission error, block signing error, unblind-from-all} x {block built for the duty validator, for another proposer index} x {auction answers at once, after 2.3 s}; nodes and signer refuse a request whose context has ended; plus blinded proposals whose 3-100 relays all answer at the same instant, one of them with the block; Prepare then Propose on the real proposer with the real signer. distinct = the whole assignment",
+		Rule:         "proposal duties over versions phase0..deneb x full/blinded x {proposal for the duty slot, for another slot} x graffiti {ok, error, timeout of the source, no provider} x auction {no auctioneer, error, result without winner, winner with a random listed subset} x per-relay unblinding {block, 400, transient error then block, error, slow, hang, answer without block} x {submission error, block signing error, unblind-from-all} x {block built for the duty validator, for another proposer index} x {auction answers at once, after 2.3 s}; nodes and signer refuse a request whose context has ended; plus blinded proposals whose 3-100 relays all answer at the same instant, one of them with the block; Prepare then Propose on the real proposer with the real signer. distinct = the whole assignment",
 		Batches:      func(string) int { return 2 },
 		Parallel:     2,
 		Run:          run,
